@@ -9,6 +9,7 @@ code -> spec : random indexes written by the real WriteTo must tokenise to Encod
 """
 import json, os
 import vlib
+from checks import cli_common
 
 TRACE_CFG = """SPECIFICATION TSpec
 CONSTANT TraceFile = "@TRACE@"
@@ -43,6 +44,8 @@ def run(rep, tier, seed):
         evt = events[int(m.group(1)) - 1] if m and int(m.group(1)) <= len(events) else None
         rep.violation("index codec deviates from the specification: %s; record: %s" % (info.get("bad", info), json.dumps(evt)[:900]),
                       {"events": [evt] if evt else [], "info": info})
+    # the stdin/stdout store kind through the real binary: an index written to standard output is the index, whatever the progress settings
+    cli_common.run(rep, vlib.workdir("C04-cli"), seed, "stdout-index", thorough, min_records=4)
     for e in events:
         rep.case(e, e.get("ev") == "dec" and len(e.get("tokens", [])) > 8)
     rep.sample([events[0], events[8]] + events[-2:])
@@ -51,11 +54,14 @@ def run(rep, tier, seed):
                 "the other digest, trailing bytes, each through one of {IndexFromReader, fragmenting reader (1/3/5/7/13 bytes per read), LocalIndexStore, "
                 "RemoteHTTPIndex + real handler, PUT to the handler}; casync fixtures; distinct = different token string/verdict; non-trivial = decode of > 8 tokens")
     rep.trusted = ["independent tokeniser of the byte layout in the driver"]
-    rep.assumptions = ["S3 and SFTP index stores read the object and call the same IndexFromReader; stdin is covered by the fragmenting reader"]
+    rep.assumptions = ["S3 and SFTP index stores read the object and call the same IndexFromReader; stdin and stdout are covered by the fragmenting reader and by `make -` / `tar -i -` / `list-chunks -` through the real binary"]
 
 
 def replay(path):
     d = json.load(open(path))
+    _r = cli_common.replay_if_cli(d, vlib.workdir("C04-cli-replay"))
+    if _r is not None:
+        return _r
     work = vlib.workdir("C04-replay")
     f = os.path.join(work, "trace.ndjson")
     vlib.write_ndjson(f, d["replay"]["events"])
